@@ -18,18 +18,18 @@ LIB_UTILS = ["utils/mem.c", "utils/utils.c", "utils/log.c"]
 ENGINES = {
     "simstructs": {
         "lib": LIB_CORE + LIB_STRUCTS + LIB_MEM + LIB_THPOOL + LIB_UTILS,
-        "src": ["sim/sched.cc", "sim/kernel.cc", "sim/alloc.cc", "sim/seams.cc",
+        "src": ["sim/sched.cc", "sim/kernel.cc", "sim/alloc.cc", "sim/seams.cc", "sim/tsanrt.cc",
                 "engines/structs/main.cc", "engines/structs/map.cc", "engines/structs/mem.cc",
                 "engines/structs/bst.cc", "engines/structs/qsl.cc"],
     },
     "simcore": {
         "lib": LIB_CORE + LIB_STRUCTS + LIB_MEM + LIB_THPOOL + LIB_UTILS,
-        "src": ["sim/sched.cc", "sim/kernel.cc", "sim/alloc.cc", "sim/seams.cc"] ,
+        "src": ["sim/sched.cc", "sim/kernel.cc", "sim/alloc.cc", "sim/seams.cc", "sim/tsanrt.cc"],
         "src_glob": ["engines/core/*.cc"],
     },
     "simthr": {
         "lib": LIB_CORE + LIB_STRUCTS + LIB_MEM + LIB_THPOOL + LIB_UTILS,
-        "src": ["sim/sched.cc", "sim/kernel.cc", "sim/alloc.cc", "sim/seams.cc"],
+        "src": ["sim/sched.cc", "sim/kernel.cc", "sim/alloc.cc", "sim/seams.cc", "sim/tsanrt.cc"],
         "src_glob": ["engines/thr/*.cc"],
     },
 }
